@@ -462,8 +462,8 @@ Proof.
     + intros x Hx. destruct (Nat.eqb x m); [reflexivity|apply G1, Hx].
     + intros x Hx. destruct (Nat.eqb x m) eqn:E.
       * apply Nat.eqb_eq in E. subst x. split; [reflexivity|exact Hlt].
-      * destruct (Nat.ltb (length (fl s)) FLCAP); [destruct Hx as [->|Hx]; [rewrite Nat.eqb_refl in E; discriminate|apply G2, Hx]|apply G2, Hx].
-    + destruct (Nat.ltb (length (fl s)) FLCAP); [constructor; assumption|exact G3].
+      * destruct (Nat.ltb (length (fl s)) (cap s)); [destruct Hx as [->|Hx]; [rewrite Nat.eqb_refl in E; discriminate|apply G2, Hx]|apply G2, Hx].
+    + destruct (Nat.ltb (length (fl s)) (cap s)); [constructor; assumption|exact G3].
   - intros x Hx. unfold hdel. destruct (Nat.eqb x m) eqn:E; [apply Nat.eqb_eq in E; congruence|reflexivity].
   - right. exists nm. split; [reflexivity|split; [exact Eo|]]. unfold hdel. now rewrite Nat.eqb_refl.
 Qed.
